@@ -18,7 +18,7 @@ impl CPUEmulator {
             4 * std::mem::size_of::<u64>() / std::mem::size_of::<u16>(),
         );
 
-        self.set_and_wait_update(CTL_FLAG_MOD_SET);
+        self.set_and_wait_update(CTL_FLAG_DEBUG_SET);
 
         NO_ERR
     }
